@@ -166,7 +166,8 @@ def check_history(case, ctx):
         for e, c in picks:
             params[e[0]], nums[e[0]] = e[1], c
             r2 = r2 or c >= 2
-            noise += removal_noise(degs[e[0]], kvs[e[0]], e[1], c)
+            amp_ = removal_noise(degs[e[0]], kvs[e[0]], e[1], c) / (64 * 2.3e-16)
+            noise = noise * max(1.0, amp_) + 64 * 2.3e-16 * amp_          # a removal also amplifies the noise the net already carries
         if noise > 1e-6:
             raise Skip("removal of a knot too close to the start of its supports is ill-conditioned")
         ctx.label("conditioning-widened-tolerance", noise > 1e-9)
